@@ -1,3 +1,3 @@
 From Coq Require Import ExtrOcamlBasic.
 From GS Require Import Num Loops C02_Model.
-Extraction "c02_model.ml" proto_anchor cls_of_nat oname_code check_dim opt_bounds opt_default arg_error lookup cor_gaussian cor_exponential cor_stable cor_rational cor_cubic cor_linear cor_spherical cor_circular cor_tplsimple correlation_elem covariance_elem variogram_elem sd_gaussian sd_exponential sd_matern sd_integral sd_hyperspherical sd_jbessel sd_tplexp sd_tplgau.
+Extraction "c02_model.ml" proto_anchor cls_of_nat oname_code check_dim opt_bounds opt_default arg_error lookup base_bound bname_of_Z cor_gaussian cor_exponential cor_stable cor_rational cor_cubic cor_linear cor_spherical cor_circular cor_tplsimple correlation_elem covariance_elem variogram_elem sd_gaussian sd_exponential sd_matern sd_integral sd_hyperspherical sd_jbessel sd_tplexp sd_tplgau.
